@@ -307,7 +307,7 @@ func checkTombstone(r *Run, rule string) {
 		r.callersExactly(rule, "SetValidatorSigningInfo", r.edgesTo(sv), []string{posK + "StakeValidator", posK + "handleDoubleSign", posK + "handleValidatorSignature", "x/pos.InitGenesis"})
 		for _, e := range r.edgesTo(sv) {
 			info := argTerm(P.callTerm(e.Site), 3).String()
-			fresh := strings.Contains(info, "zero:signingInfo") || strings.HasPrefix(info, "complit:x/pos/types.ValidatorSigningInfo")
+			fresh := strings.Contains(info, "zero:x/pos/types.ValidatorSigningInfo") || strings.HasPrefix(info, "complit:x/pos/types.ValidatorSigningInfo")
 			if !fresh {
 				continue
 			}
